@@ -4,6 +4,8 @@ pub mod c01;
 pub mod c02;
 pub mod c03;
 pub mod c04;
+pub mod c05;
+pub mod c06;
 pub mod c07;
 pub mod c08;
 pub mod c09;
@@ -25,6 +27,8 @@ pub fn all() -> Vec<Property> {
         c02::property(),
         c03::property(),
         c04::property(),
+        c05::property(),
+        c06::property(),
         c07::property(),
         c08::property(),
         c09::property(),
